@@ -109,7 +109,7 @@ def typestate(ctx, db):
     if len(fns) < 10:
         raise Broken('suspend_point<void> members not instantiated (have %d)' % len(fns))
     npred = 0
-    T = Tracer(db, depth=3, inline_filter=lambda caller, ev, callee: is_helper(db, caller, callee) and not callee.get('lambda'), maxvisit=2, limit=20000)
+    T = Tracer(db, depth=5, inline_filter=lambda caller, ev, callee: is_helper(db, caller, callee) and not callee.get('lambda'), maxvisit=2, limit=20000)
     in_class_callers = lambda f: [c for c in callers_of(db, f['nname']) if c.startswith(SP + '::') or c.startswith(SP + '<')]
     for f in fns:
         touches = any(re.search(r'_count_flag|\._ext|\._local', (e.get('path') or '') + (e.get('rhs') or '')) for e in f.events() if e.k in ('read', 'write', 'delete'))
@@ -124,7 +124,7 @@ def typestate(ctx, db):
         for tr in trs:
             if bad:
                 break
-            heap = {}; deleted = {}; installed = {}; transferred = {}; boolvars = {}; eq = {}
+            heap = {}; deleted = {}; installed = {}; transferred = {}; boolvars = {}; eq = {}; pending_xchg = None
             if is_ctor:
                 deleted['this'] = True          # a fresh object has no old array
             for i, it in enumerate(tr):
@@ -146,6 +146,14 @@ def typestate(ctx, db):
                             heap[eq[obj]] = val
                         if not is_ctor or obj != 'this':
                             deleted[obj] = False if val else deleted.get(obj, False)
+                    continue
+                if it.k == 'call' and norm(it.get('callee') or '') == 'std::exchange' and it.get('args') and (it['args'][0].get('path') or '').endswith('_count_flag') and objof(it['args'][0]['path']):
+                    # std::exchange(X._count_flag, c): X's word becomes c, the old word (and with it the storage it describes) goes to whoever takes the result
+                    xo = objof(it['args'][0]['path'])
+                    pending_xchg = (xo, heap.get(xo))
+                    c_ = it['args'][1].get('const') if len(it['args']) > 1 else None
+                    transferred[xo] = True
+                    heap[xo] = bool(c_ & 1) if c_ is not None else None
                     continue
                 if it.k == 'call' and norm(it.get('callee') or '').endswith('::operator=') and re.search(r'\._(ext|local)$', it.get('recv') or ''):
                     # trivial struct assignment of the storage union member: a write of the whole member
@@ -195,7 +203,11 @@ def typestate(ctx, db):
                 if p.endswith('_count_flag') and it.k == 'write':
                     eff = parity_effect(it)
                     old = heap.get(obj)
-                    if eff[0] == 'copy':
+                    if eff[0] == 'unknown' and (it.get('rhs') or '') == 'call(std::exchange)' and pending_xchg is not None:
+                        # initialised from the old word of another suspend point: same mode as that one had, and it describes that one's storage
+                        eff = ('copy', pending_xchg[0]); heap[pending_xchg[0] + '@old'] = pending_xchg[1]
+                        new = pending_xchg[1]; eq[obj] = pending_xchg[0]
+                    elif eff[0] == 'copy':
                         new = heap.get(eff[1]); eq[obj] = eff[1]
                     elif eff[0] == 'set':
                         new = bool(eff[1])
@@ -234,8 +246,8 @@ def _ctor_sets_inline(f):
 
 
 def source_reset(ctx, db):
-    rid = ctx.rule('C06.source-reset', 'COUNT+ORDER', 'move construction and merge (operator<<(suspend_point&&), hence move-assignment) leave the source empty on every path: the last '
-                   'access to the source is the write of 0 to its _count_flag; the merge hands each source element to add() exactly once per loop iteration', floor=2)
+    rid = ctx.rule('C06.source-reset', 'COUNT+ORDER', 'move construction and merge (operator<<(suspend_point&&), hence move-assignment) leave the source empty on every path: the '
+                   'source\'s _count_flag is set to 0 (assignment or std::exchange) and nothing else is written to it afterwards; the merge hands each source element to add() exactly once per loop iteration', floor=2)
     targets = []
     for f in db.fns('cocls::suspend_point::suspend_point'):
         if any('suspend_point' in p['type'] and '&&' in p['type'] for p in f['params']) and f.get('class_inst') == 'cocls::suspend_point<void>':
@@ -261,8 +273,16 @@ def source_reset(ctx, db):
             acc.sort(key=lambda x: x[0])
             if not acc:
                 bad = bad or ('a path never touches the source', tr); continue
-            last = acc[-1][1]
-            if not (last.k == 'write' and (last.get('path') or '').endswith('_count_flag') and last.get('const') == 0 and (last.get('op') or '=') == '='):
+            # the source's count word ends up 0: written 0 (or exchanged with 0) and not written anything else afterwards.  Reading the
+            # source's storage bytes after that is harmless (they are plain words), so the zeroing need not be the last access
+            def _cf_write(it):
+                if it.k == 'write' and rooted(it.get('path') or '', src) and (it.get('path') or '').endswith('_count_flag'):
+                    return 'zero' if (it.get('const') == 0 and (it.get('op') or '=') == '=') else 'other'
+                if it.k == 'call' and norm(it.get('callee') or '') in ('std::exchange',) and it.get('args') and rooted(it['args'][0].get('path') or '', src) and (it['args'][0].get('path') or '').endswith('_count_flag'):
+                    return 'zero' if len(it['args']) > 1 and it['args'][1].get('const') == 0 else 'other'
+                return None
+            cw = [_cf_write(it) for it in tr if _cf_write(it)]
+            if not cw or cw[-1] != 'zero':
                 bad = bad or ('on some path the source is not reset to empty after its handles were taken (they would be resumed twice)', tr)
             if f['nname'].endswith('operator<<'):
                 # per loop iteration exactly one add(source element)
@@ -273,7 +293,7 @@ def source_reset(ctx, db):
                             bad = bad or ('a loop iteration of the merge hands over %d source elements instead of one' % len(seg), tr)
                         inloop = bool(it.val); seg = []
                     elif it.k == 'call' and norm(it.get('callee')) == 'cocls::suspend_point::add' and inloop:
-                        seg.append(any(rooted(a.get('path') or '', src) and '[]' in (a.get('path') or '') for a in it.get('args', [])))
+                        seg.append(any((rooted(a.get('path') or '', src) or (src + '.') in (a.get('path') or '')) and '[]' in (a.get('path') or '') for a in it.get('args', [])))
         ctx.ob(rid, f, f['key'], bad is None, 'source emptied last, elements handed over once' + ('' if not bad else ' -- ' + bad[0]), desc=bad[0] if bad else None, trace=fmt_trace(bad[1]) if bad else None)
     for f in db.fns('cocls::suspend_point::operator=')[:1]:
         n = [e for e in f.events() if e.k == 'call' and norm(e.get('callee')) == 'cocls::suspend_point::operator<<']
@@ -373,7 +393,7 @@ def growth(ctx, db):
                 if not guards:
                     bad = bad or ('an allocation is not guarded by a capacity test', tr); continue
                 g = guards[-1]
-                full = reached_capacity(g)
+                full = reached_capacity(g, tr, tr.index(g))
                 if not full:
                     bad = bad or ('an allocation happens although the count has not reached the capacity', tr)
                 size = re.sub(r'\s+', '', it.get('size') or '')
@@ -422,9 +442,19 @@ def _linear(side):
     return None
 
 
-def reached_capacity(br):
+def _resolve_calls(path, tr, i):
+    """replace values of expanded helpers in an expression by what they returned on this path (sp_count(_count_flag) -> (_count_flag >> 1))"""
+    if tr is None or not path:
+        return path
+    def rep(m):
+        o, _ = origin_in_trace(tr, i, m.group(0))
+        return ('(%s)' % o.strip('()')) if o and o != m.group(0) and not o.startswith('call(') else m.group(0)
+    return re.sub(r'call\([^()]*\)', rep, path)
+
+
+def reached_capacity(br, tr=None, i=None):
     """does the taken edge of this comparison imply count >= capacity (inline_count / _ext._capacity)?"""
-    m = re.fullmatch(r'\((.+) (<=|>=|==|!=|<|>) (.+)\)', br.path or '')
+    m = re.fullmatch(r'\((.+) (<=|>=|==|!=|<|>) (.+)\)', _resolve_calls(br.path or '', tr, i))
     if not m:
         return False
     L, op, R = _linear(m.group(1)), m.group(2), _linear(m.group(3))
@@ -486,8 +516,9 @@ def self_inclusion(ctx, db):
                 if it.k == 'call' and it.get('depth', 0) == 0 and norm(it.get('callee') or '').endswith('::push') and any((a.get('path') or '') in (hname, 'ctor(%s)' % hname) for a in it.get('args', [])):
                     g = None
                     for b in reversed(tr[:i]):
-                        if b.k == 'branch' and b.get('depth', 0) == 0 and re.search(r'local:\w+', b.get('opath') or ''):
-                            g = re.search(r'local:\w+', b.get('opath')).group(0); break
+                        if b.k == 'branch' and b.get('depth', 0) == 0 and re.search(r'local:\w+(#\d+)?', (b.get('opath') or '') + ' ' + (b.get('path') or '')):
+                            # the flag itself, or - when the scan was extracted into a helper that returns it - the helper's flag
+                            g = re.search(r'local:\w+(#\d+)?', (b.get('opath') or '') if re.search(r'local:\w+', b.get('opath') or '') else (b.get('path') or '')).group(0); break
                     if g is None:
                         unguarded = unguarded or tr
                     else:
@@ -498,11 +529,12 @@ def self_inclusion(ctx, db):
             ctx.ob(rid, f, f['key'], False, 'the awaiting coroutine is queued without a test whether its handle was already in the list', desc='own handle queued unguarded', trace=fmt_trace(unguarded))
             continue
         var = guard
-        ws = [e for e in f.events() if e.k == 'write' and e.get('path') == var and not e.get('init')]
+        ws = list({(it.get('fn'), it.get('id')): it for tr in trs for it in tr if it.k == 'write' and it.get('path') == var and not it.get('init')}.values())
         bad = None
         for e in ws:
-            b = f.block_of(e['id'])
-            if b is None or not _in_cycle(f, b):
+            fo = db.get(e.get('fn')) or f
+            b = fo.block_of(e['id'])
+            if b is None or not _in_cycle(fo, b):
                 continue
             mono = (e.get('op') in ('|=',)) or (e.get('const') in (1, True) and (e.get('op') or '=') == '=') or (var in (e.get('rhs') or ''))
             if not mono:
